@@ -372,6 +372,7 @@ package commitlog
 //@   ensures [epochs-wf] wfEpochs(l.leaderEpochCache)
 //@   assumes forall j int :: 0 <= j && j < len(entries) ==> entries[j].Offset >= lastStartOf(l.leaderEpochCache)
 //@   assumes forall j int, k int :: 0 <= j && j < k && k < len(entries) ==> entries[j].Offset <= entries[k].Offset
+//@   call Assign requires [boundary-as-the-leader-records-it] arg1 == entry.LeaderEpoch && arg2 == epochBoundary(entry.Offset)
 //@   ensures [every-epoch-of-the-batch-recorded] err == nil ==> (forall j int :: 0 <= j && j < len(entries) ==> old(entries[j].LeaderEpoch) <= lastEpochOf(l.leaderEpochCache))
 //@   loop 1 invariant lastLeaderEpoch == lastEpochOf(l.leaderEpochCache) && (forall j int :: 0 <= j && j <= rangeindex ==> old(entries[j].LeaderEpoch) <= lastLeaderEpoch)
 //@   loop 1 invariant forall j int :: 0 <= j && j < len(entries) ==> entries[j].LeaderEpoch == old(entries[j].LeaderEpoch)
@@ -813,3 +814,20 @@ package commitlog
 //@   call ClearEarliest requires [history-trimmed-to-the-log-start] arg1 == ghost.oldestSeen
 //@ func (*commitLog).open serves C02, C05
 //@   ensures assumed [active-segment-set] result == nil ==> l.vActiveSegment != nil
+
+// Where an epoch starts is recorded by two writers: the new leader (NewLeaderEpoch, before it appends the epoch's first
+// message) and every replica that learns the epoch from the data (append). Both must record the same value for the same
+// log: the offset of the epoch's first message. (The leader answers an epoch-offset request with the offset before it,
+// see handleLeaderOffsetRequest in package server, and the asker keeps everything up to and including the answer.) (C02)
+//@ pure func epochBoundary(firstOffsetOfEpoch int64) int64 = firstOffsetOfEpoch
+//@ func (*commitLog).NewLeaderEpoch serves C02
+//@   requires l != nil && l.vActiveSegment != nil
+//@   assumes l.leaderEpochCache != nil && wfEpochs(l.leaderEpochCache)
+//@   call Assign requires [boundary-recorded-by-the-leader] arg1 == epoch && arg2 == epochBoundary(nextOffset(l))
+
+// the answer to "where does epoch e end": the start recorded for the first later epoch, else the newest offset
+//@ func (*commitLog).LastOffsetForLeaderEpoch serves C02
+//@   requires l != nil && l.vActiveSegment != nil && epoch < 18446744073709551615
+//@   assumes l.leaderEpochCache != nil && wfEpochs(l.leaderEpochCache)
+//@   ensures [log-end-for-the-latest-epoch] (forall i int :: 0 <= i && i < len(l.leaderEpochCache.epochOffsets) ==> l.leaderEpochCache.epochOffsets[i].leaderEpoch <= epoch) ==> result == nextOffset(l) - 1
+//@   ensures [start-of-the-next-epoch] forall k int :: 0 <= k && k < len(l.leaderEpochCache.epochOffsets) && l.leaderEpochCache.epochOffsets[k].leaderEpoch > epoch && (forall i int :: 0 <= i && i < k ==> l.leaderEpochCache.epochOffsets[i].leaderEpoch <= epoch) && l.leaderEpochCache.epochOffsets[k].startOffset != -1 ==> result == l.leaderEpochCache.epochOffsets[k].startOffset
